@@ -75,11 +75,17 @@ class Forward:
         self.call_effects = call_effects
         self.assume = assume
         self.sym = Sym(fa.f, fa.cfg, fa.rd, inliner=an.inliner)
+        self.sym.tuple_inliner = an.tuple_elements
         self.st = State()
         self.sym.eager = self.st.locals
         self.sym.state = self.st.slots
         self.returns: List[Tuple[ast.Return, Optional[Poly], State]] = []
         self.version = 0
+        self.return_elts: Dict[int, List[Poly]] = {}
+        self._depth = 0
+        self._stack: List[str] = []
+        self._inlined: Set[int] = set()
+        self._call_elts: Dict[int, List[Poly]] = {}
         self.sym.suffix = self._suffix
         for p in fa.f.params:
             self.st.locals[p] = Poly.atom(p)
@@ -120,6 +126,93 @@ class Forward:
                 break
             self._stmt(s)
 
+    # ------------------------------------------------- helpers new to the reviewed inventory: evaluated in place
+    def _inline_new_helpers(self, node: ast.AST):
+        """Calls (in evaluation order, innermost first) to in-package functions that are NOT in the reviewed inventory and that
+        write state are evaluated in place: the callee's body runs on this very state (slots shared, parameters bound to the
+        argument values, the callee's `self` bound to the receiver), so extracting a block of a reviewed function into a new
+        helper leaves every ledger / slot value the rules read unchanged. Pure new helpers are handled by the value-id inliner."""
+        if node is None or self._depth >= 3:
+            return
+        f = self.fa.f
+        calls = [c for c in ast.walk(node) if isinstance(c, ast.Call)]
+        calls.sort(key=lambda c: (getattr(c, "end_lineno", 0), getattr(c, "end_col_offset", 0)))
+        for c in calls:
+            if id(c) in self._inlined:
+                continue
+            tgs, ext = self.an.res.resolve_call(c, f)
+            if id(c) in self.an.res.byname or len(tgs) != 1:
+                continue
+            g = tgs[0]
+            if not self.an.is_new_function(g) or g.qual in self._stack or g.is_property:
+                continue
+            if not any(e.kind in "WMD" for e in self.an.transitive_effects(g)):
+                continue                      # pure: the value-id inliner sees through it
+            if any(isinstance(n, (ast.Yield, ast.YieldFrom, ast.Await)) for n in ast.walk(g.node)) or any(isinstance(a, ast.Starred) for a in c.args) or any(k.arg is None for k in c.keywords):
+                continue
+            params = list(g.params)
+            binding = {}
+            if g.cls is not None and not g.is_static:
+                if not isinstance(c.func, ast.Attribute):
+                    continue
+                binding[params[0]] = Poly.atom(self.canon(c.func.value))
+                params = params[1:]
+            if len(c.args) > len(params):
+                continue
+            ok = True
+            for p_, a in zip(params, c.args):
+                binding[p_] = self.ev(a)
+            for k in c.keywords:
+                if k.arg not in params or k.arg in binding:
+                    ok = False
+                    break
+                binding[k.arg] = self.ev(k.value)
+            for p_ in params:
+                if p_ not in binding:
+                    d = g.param_default(p_)
+                    if d is None:
+                        ok = False
+                        break
+                    binding[p_] = self.ev(d)
+            if not ok:
+                continue
+            sub = Forward(self.an, self.an.fa(g), on_stmt=None, skip_if=self.skip_if, track_slots=self.track, call_effects=self.call_effects, assume=self.assume)
+            sub._depth = self._depth + 1
+            sub._stack = self._stack + [self.fa.f.qual]
+            sub.version = self.version
+            sub.sym.decide = self.sym.decide
+            sub.st.locals = dict(binding)
+            sub.st.slots = dict(self.st.slots)
+            sub.st.conds = list(self.st.conds)
+            sub.run()
+            ends = [st for r, v, st in sub.returns] + ([sub.st] if sub.st.alive else [])
+            if not ends:
+                self.st.alive = False
+                continue
+            out = ends[0]
+            for e_ in ends[1:]:
+                out = join(out, e_)
+            self.st.slots = dict(out.slots)
+            self.version = max(self.version, sub.version) + 1
+            vals = [v for r, v, st in sub.returns]
+            if sub.st.alive or any(v is None for v in vals) or not vals:
+                val = Poly.atom("None") if not vals else Poly.atom("phi(" + " | ".join(sorted({(v.key() if v is not None else "None") for v in vals} | ({"None"} if sub.st.alive else set()))) + ")")
+            elif len({v.key() for v in vals}) == 1:
+                val = vals[0]
+            else:
+                val = Poly.atom("phi(" + " | ".join(sorted({v.key() for v in vals})) + ")")
+            if self.sym.__dict__.get("call_values") is None:
+                self.sym.call_values = {}
+            self.sym.call_values[id(c)] = val
+            if len(sub.returns) == 1 and not sub.st.alive and id(sub.returns[0][0]) in sub.return_elts:
+                self._call_elts[id(c)] = sub.return_elts[id(sub.returns[0][0])]       # a tuple result, element by element
+            self._inlined.add(id(c))
+            self._bind()
+
+    def _pure_tuple(self, call: ast.Call, n: int):
+        self._bind()
+        return self.an.tuple_elements(self.sym, call, n, None, 0)
+
     def _invalidate_calls(self, node: ast.AST):
         """Calls to in-package functions invalidate the slots they may write."""
         if not self.call_effects:
@@ -127,6 +220,8 @@ class Forward:
         f = self.fa.f
         for sub in ast.walk(node):
             if not isinstance(sub, ast.Call):
+                continue
+            if id(sub) in self._inlined:
                 continue
             tgs, ext = self.an.res.resolve_call(sub, f)
             if id(sub) in self.an.res.byname:
@@ -194,12 +289,26 @@ class Forward:
                           ast.Import, ast.ImportFrom, ast.Continue, ast.Break, ast.Global, ast.Nonlocal)):
             if self.on_stmt:
                 self.on_stmt(s, self)
+        if isinstance(s, (ast.Assign, ast.AnnAssign, ast.AugAssign, ast.Expr, ast.Return)):
+            self._inline_new_helpers(getattr(s, "value", None))
+        elif isinstance(s, (ast.If, ast.While)):
+            self._inline_new_helpers(s.test)
+        elif isinstance(s, ast.For):
+            self._inline_new_helpers(s.iter)
         if isinstance(s, ast.Assign):
             if (len(s.targets) == 1 and isinstance(s.targets[0], (ast.Tuple, ast.List)) and isinstance(s.value, (ast.Tuple, ast.List))
                     and len(s.targets[0].elts) == len(s.value.elts) and not any(isinstance(e, ast.Starred) for e in s.targets[0].elts + s.value.elts)):
                 vals = [self.ev(e) for e in s.value.elts]     # all evaluated before any store
                 self._invalidate_calls(s.value)
                 for t, v in zip(s.targets[0].elts, vals):
+                    self._store(t, v)
+            elif (len(s.targets) == 1 and isinstance(s.targets[0], (ast.Tuple, ast.List)) and isinstance(s.value, ast.Call) and id(s.value) not in self._call_elts
+                  and not any(isinstance(e, ast.Starred) for e in s.targets[0].elts) and self._pure_tuple(s.value, len(s.targets[0].elts)) is not None):
+                for t, v in zip(s.targets[0].elts, self._pure_tuple(s.value, len(s.targets[0].elts))):
+                    self._store(t, v)
+            elif (len(s.targets) == 1 and isinstance(s.targets[0], (ast.Tuple, ast.List)) and isinstance(s.value, ast.Call) and id(s.value) in self._call_elts
+                  and len(self._call_elts[id(s.value)]) == len(s.targets[0].elts) and not any(isinstance(e, ast.Starred) for e in s.targets[0].elts)):
+                for t, v in zip(s.targets[0].elts, self._call_elts[id(s.value)]):      # a, b = self._new_helper(...): the helper's tuple, element-wise
                     self._store(t, v)
             else:
                 v = self.ev(s.value)
@@ -222,6 +331,8 @@ class Forward:
             self._invalidate_calls(s.value)
         elif isinstance(s, ast.Return):
             v = self.ev(s.value) if s.value is not None else None
+            if isinstance(s.value, ast.Tuple) and not any(isinstance(x, ast.Starred) for x in s.value.elts):
+                self.return_elts[id(s)] = [self.ev(x) for x in s.value.elts]
             self.returns.append((s, v, self.st.copy()))
             self.st.alive = False
         elif isinstance(s, (ast.Raise, ast.Continue, ast.Break)):
